@@ -487,6 +487,11 @@ def run(ctx) -> None:
                                                          "'<=' the sixth failed submission is retried, a later success makes the component FINISHED and the "
                                                          "stage is reported complete instead of failed (shared with C12.R4)"),
         ("C02.R7-shutdown-table", "aggregating consumer shuts down on any non-replicated SHUTDOWN input or when all replicated inputs are SHUTDOWN"),
+        ("C02.R15-done-means-final", "the shutdown rules read a producer's final state as soon as it is in comp_done: a component enters comp_done only "
+                                     "where its final state has been observed (finishedCheck, the skipped stages of a restart, kill_all_components) - "
+                                     "finish() on a component that never ran is asynchronous, so marking it done at the call makes the rules see a "
+                                     "RUNNING producer as finished-without-shutdown and launch its consumer, depending on the ordering (the C01 "
+                                     "single-writer obligation re-used)"),
     ]:
         ctx.rule(rid, text)
     ctx.assume("thread interleavings of the rx pipeline are not explored; rules constrain each callback for all of them")
@@ -961,3 +966,21 @@ def _shutdown_table(ctx, sched: ast.FunctionDef) -> None:
                    "an aggregating consumer becomes ready only when neither shutdown rule applies" if ok else
                    "an aggregating consumer can become ready although a shutdown rule applies",
                    construct=short(rn.ast) + " <- aggregating, no shutdown rule applies")
+
+    # ---------------- R15: comp_done means 'final state observed' (C01.R6 re-used) -----------------------
+    from checks import c01
+    from vlib.report import Ctx as _Ctx
+    sub_ctx = _Ctx("C01", ctx.tier, ctx.repo)
+    c01.run(sub_ctx)
+    n15 = 0
+    for o in sub_ctx.obligations:
+        if o["rule"] == "C01.R6-single-writer":
+            o2 = dict(o)
+            o2["rule"] = "C02.R15-done-means-final"
+            o2["what"] = "[%s] %s" % (o["rule"], o["what"]) + ("" if o["ok"] else
+                          " - a consumer of a producer that was put down (finish() called, final state still on its way) then sees a satisfied "
+                          "dependency and no shut-down producer: it is launched and ends FINISHED in one ordering, SHUTDOWN in the other")
+            ctx.obligations.append(o2)
+            n15 += 1
+    ctx.functions_analysed |= sub_ctx.functions_analysed
+    ctx.floor("C02.R15-done-means-final", n15, 2, "writers of comp_done inspected by the C01 analysis")
